@@ -236,7 +236,7 @@ def bmp_save_unit(ctx, src):
                       Rule('WindowsBitmapInfoHeader::SIZE24', 'WindowsBitmapInfoHeader_SIZE24', count=1)])
     u.block(src, CC, SAVE, r'case Format::WINDOWS_BITMAP:', new_header='void Image_save_bmp(const Image* self)',
             rules=[Rule('init_bmp_header(header,', 'init_bmp_header(&header,', count=1),
-                   Rule(r'\bwriter\(', 'C06_writer(', count=4, regex=True),
+                   Rule(r'\bwriter\(', 'C06_writer(', count='+', regex=True),
                    Rule('auto row_data_unique = malloc_unique(', 'void* row_data_unique = C06_malloc_unique(', count=1),
                    Rule('row_data_unique.get()', 'row_data_unique', count=1),
                    Rule(r'\bbreak;\s*\}\s*$', 'return;\n}', count=1, regex=True),
@@ -304,12 +304,14 @@ def bmp_misc_groups(ctx, src, dim):
                           '24/32 bpp, 1 plane; w, h, row order and seek position taken from the header; io_error on a short file',
               replay=Replay(mode='bmp_load', extra=['in_w=0x1', 'in_h=0x1', 'in_depth=0x18', 'in_comp=0x0'], **RP)),
     ]
+    # (a stand-alone obligation for init_bmp_header with width, height up to 64 / 8192 -- bfSize == headers + height * stride -- was tried and
+    #  dropped: no engine finishes the non-linear identity within 10 minutes; the header arithmetic is covered, bounded, by Image.save.bmp[..])
     for alpha in (0, 1):
         gs.append(Group(name='Image.bmp.save_load_identity[alpha=%d]' % alpha, harness='harness/C06/bmp_misc.c', entry='l_roundtrip',
                         function='Image::save_helper (WINDOWS_BITMAP) ; Image::load (BMP)',
                         replace=['Image_save_bmp', 'Image_load_bmp_rgb', 'Image_load_bmp_bitfields'],
-                        defines=codes + ['C06_DIM=%d' % (dim // 2), 'C06_ALPHA=%d' % alpha, 'C06_DEPTH=%d' % (32 if alpha else 24), 'C06_SAVE=1', 'C06_DECODE_BMP_HEADER=1', 'C06_LEMMA=1'], kind='lemma',
-                        bound='width, height in 1..%d (the loop contracts it composes are proved for 1..%d)' % (dim // 2, dim),
+                        defines=codes + ['C06_DIM=%d' % (dim // 2), 'C06_ALPHA=%d' % alpha, 'C06_DEPTH=%d' % (32 if alpha else 24), 'C06_SAVE=1', 'C06_DECODE_BMP_HEADER=1', 'C06_LEMMA=1'], kind='bounded',
+                        bound='lemma over the block contracts; width, height in 1..%d (the loop contracts it composes are proved for 1..%d)' % (dim // 2, dim),
                         timeout=300, object_bits=12, min_post=3,
                         clause_note='over the saver and loader contracts: the header the saver emits selects a loader branch that reads channel c of pixel '
                                     '(x,y) from exactly the stream position where the saver put it; alpha flag, consumed == emitted bytes',
@@ -365,8 +367,8 @@ def save_misc_groups(ctx, dim):
                             clause_note='contracts/C06_save.h: header text then exactly get_data_size() bytes, byte k of the buffer at header_len + k', replay=rp))
             gs.append(Group(name='Image.ppm.save_load_identity[cw=%d,alpha=%d]' % (cw, alpha), harness='harness/C06/save_misc.c', entry='l_ppm_roundtrip',
                             function='Image::save_helper (COLOR_PPM) ; Image::load (PPM)', replace=['Image_save_ppm', 'Image_load_ppm_tail'],
-                            defines=d + ['C06_GRAY=0', 'C06_LEMMA=1'], kind='lemma',
-                            bound='the two contracts it composes are proved for width, height in 1..%d; the text header is assumed to parse back to the '
+                            defines=d + ['C06_GRAY=0', 'C06_LEMMA=1'], kind='bounded',
+                            bound='lemma over the saver and loader contracts; width, height in 1..%d; the text header is assumed to parse back to the '
                                   'same width, height, maxval and tuple type (not decided)' % dim,
                             timeout=300, stage1=60, engines=['minisat', 'cadical'], object_bits=12, min_post=2,
                             clause_note='over the saver and loader contracts: byte k after the header is byte k of the loaded buffer; members equal; '
@@ -400,10 +402,66 @@ def plan(ctx):
     return groups
 
 
-EXPLANATION = ''
-TRUSTED = []
-ASSUMPTIONS = []
-DROPS = ''
-NOT_DECIDED = []
+EXPLANATION = (
+    'Claimed NARROWLY and BOUNDED (category other): what is decided is the index / padding / row-order arithmetic and the memory safety of the load and save '
+    'loops of src/Image.cc, for image width and height symbolic in 1..8 (quick; 1..16 thorough; 1..4 / 1..8 for the 16/32/64-bit branches of the gray '
+    'expansion and for the BMP save->load lemma), every residue of width mod 4 included, all pixel / file contents. The property asks for 1..64: out of reach, '
+    'the index arithmetic is non-linear (w*h*c) and every back end needs minutes per query already at 16. '
+    'The code is verified block by block (statement ranges / blocks cut from Image::load and Image::save_helper on every run): function contracts enforced '
+    'with goto-instrument --dfcc, the row loops under loop contracts with a ghost channel of a ghost pixel (so each postcondition speaks about every channel '
+    'of every pixel) and a ghost byte of the file / output stream (so positions are compared with the positions the format defines). freadx, the writer '
+    'callback, fseek, snprintf are trusted models (stubs/C06_io.h); freadx may throw io_error at every call (truncation). BMP header fields are decoded from '
+    'the emitted bytes at the offsets of the format definition, i.e. as an independent decoder reads them. Two lemmas compose the saver and loader contracts '
+    '(BMP: through the emitted header and the loader dispatch; PPM: sample array only). Loop-free and unbounded: BMP header struct layout and dispatch codes, '
+    'the header part of the BMP loader.')
+TRUSTED = [
+    'stubs/C06_io.h: models of phosg::freadx (fills exactly n bytes or throws io_error, never stores more than n), fseek, the writer callback, '
+    'malloc_unique (assumed to succeed), snprintf/strlen of the PPM header text, unordered_map::at on the 4-entry mask table',
+    'contracts/C06_ppm.h: C06_malloc (same allocation written as sizeof(sample)*count so that cbmc types the buffer; size asserted to be a whole number of samples)',
+    'stubs/libc.h: memcpy contract (PNG scan-line copy)',
+    'contracts/C06_bmp.h, C06_ppm.h, C06_save.h: specification macros written from the BMP / Netpbm / PNG format definitions',
+    'extraction rules of props/C06.py, in particular: union DataPtrs member puns (.as8/.as16/..) rewritten to casts of .raw (cbmc loses the points-to '
+    'set across union members); le_uint16_t/le_uint32_t/le_int32_t header fields are plain integers (little-endian host model; the wrappers are C03)',
+]
+ASSUMPTIONS = [
+    'image width and height within the stated bound of each group (1..8 quick / 1..16 thorough; halves for wide-channel gray expansion and the BMP lemma)',
+    'little-endian host (BMP header structs are laid over le_* wrapper fields; proved separately by C03)',
+    'malloc_unique / malloc for row and scan-line buffers succeeds (phosg::malloc_unique does not check its result)',
+    'the byte stream delivered by freadx is the file content in order; a short file surfaces as io_error from freadx (src/Filesystem.cc, not re-verified here)',
+    'the PPM text header written by snprintf parses back to the same width / height / maxval / tuple type (header text and parser are not decided)',
+]
+DROPS = ('blocks / statement ranges of Image::load and Image::save_helper become C functions with the surrounding locals as parameters; exceptions -> verif_exc '
+         'with `if (verif_exc) return;` after every freadx; try/catch around freadx and around the mask lookups lowered by rule; unique_ptr / malloc_unique '
+         '-> raw pointers (destructors dropped: no leak reasoning); unordered_map -> constant table; header = {} -> memset; WindowsBitmapHeader& -> pointer; '
+         'Format::X -> Format_X; union member puns -> casts of .raw; template parameter Writer -> the C06_writer stub; string_printf arguments of throw '
+         'expressions are discarded with the throw lowering')
+NOT_DECIDED = [
+    'dimensions above the bound (the property quantifies over 1..64; decided here: 1..8 quick, 1..16 thorough, less for wide-channel gray files)',
+    'PNG validity beyond the scan-line buffer: zlib stream (compress2), chunk framing and CRCs (write_png_chunk + crc32), IHDR/gAMA field values -- external '
+    'library calls and C++ aggregate/be_uint32_t code outside this technique (the native replay driver decodes a PNG with zlib, as a test only)',
+    'PPM / PAM header text: snprintf output, fscanf / fgets / stoull parsing, whitespace handling, max-value -> channel-width mapping',
+    'byte order of 16/32/64-bit PPM samples relative to the Netpbm definition (phosg writes and reads host order; only save/load identity is shown)',
+    '"an independent decoder reads the same pixels" beyond the byte-position and header-field facts (no decoder is run inside the verifier)',
+    'leaks on exception paths (unique_ptr RAII is dropped by the extraction; only the explicit free() in the PPM catch block is part of the verified text)',
+    'behaviour when an allocation fails (BMP loader and savers do not check malloc_unique)',
+    'malformed (as opposed to truncated) files beyond the BMP info-header size: zero / negative / huge width or height, biHeight == INT32_MIN, w*h*3 overflowing int32, '
+    'bfOffBits pointing anywhere (fseek result unchecked)',
+    'signature dispatch at the top of Image::load and the control flow between the extracted blocks (commit after the row loops is outside the blocks: '
+    '"members unchanged on a truncated BMP" rests on the blocks having no access to *this plus C++ exception propagation)',
+    'a stand-alone, unbounded obligation for init_bmp_header (tried for dimensions up to 64 and 8192: no engine finishes the non-linear bfSize identity)',
+]
 CLAIMED = True
-MANIFEST = dict(category='other', text='', note='', technique='')
+MANIFEST = dict(
+    category='other',
+    text=('Bounded symbolic verification with function and loop contracts: the gray->RGB expansion, the BI_RGB / BI_BITFIELDS row loops, the BMP save loops '
+          '(header decoded from the emitted bytes), the PNG scan-line copy and the PPM sample block of src/Image.cc are cut from the source on every run and '
+          'proved memory-safe and position-correct (ghost pixel / ghost stream byte) for every image with width, height in 1..8 (thorough 1..16; wide-channel '
+          'gray files and the BMP composition lemma: half of that), all residues of width mod 4, all contents, with freadx throwing at any call. '
+          'BMP struct layout, loader dispatch codes and the header part of the BMP loader are loop-free proofs without a bound. '
+          'Two genuine defects were found and reproduced natively under ASan (fixes/C06-1, C06-2).'),
+    note=('category other because every loop / index obligation is bounded in the image dimension (the property asks for 1..64; non-linear index arithmetic '
+          'does not scale that far) and because large parts of the statement are not decided at all: PNG/zlib/CRC validity, PPM header text and parsing, '
+          'leak freedom, allocation failure, malformed dimensions (see not_decided). Trusted: cbmc / goto-instrument, the answering SAT solver, the extractor '
+          'and its rules, the I/O stubs in stubs/C06_io.h, the format specification macros.'),
+    technique='function contracts + loop contracts (goto-instrument --dfcc --apply-loop-contracts), ghost pixel / ghost stream byte, cbmc SAT back ends; bounded image dimensions',
+)
